@@ -409,7 +409,7 @@ def stoch_obj(draw, left_sym, right_sym, avoid=frozenset(), chem="any", arche=No
     """
     did = draw(st.sampled_from([None, None, None, 1, 2, 12]))
     sym_family = "$" if "$" in (left_sym, right_sym) else ("<>" if (left_sym or right_sym) else draw(st.sampled_from(["<>", "<>", "$"])))
-    arche = arche or draw(st.sampled_from(["homo", "copoly", "copoly", "aabb", "branch", "graft", "homo"]))
+    arche = arche or draw(st.sampled_from(["homo", "copoly", "copoly", "aabb", "branch", "graft", "homo", "twoid"]))
     if sym_family == "$" and arche == "aabb":
         arche = "copoly"
     order = 1
@@ -434,6 +434,11 @@ def stoch_obj(draw, left_sym, right_sym, avoid=frozenset(), chem="any", arche=No
     elif arche == "branch":
         units.append([mk(head), mk(tail)])
         units.append([mk(head), mk(tail), mk(tail)])
+    elif arche == "twoid":
+        # alternating units that are told apart by descriptor ids only
+        id2 = (did or 0) + 5
+        units.append([mk(head), BD(tail, id2, None, 1)])
+        units.append([BD(head, id2, None, 1), mk(tail)])
     elif arche == "graft":
         sid = (did or 0) + 1
         units.append([mk(head), mk(tail), BD("$", sid, draw(st.sampled_from([None, 0.5, 2.0])), 1)])
@@ -542,13 +547,13 @@ def _reprint(sto):
 # ----------------------------------------------------------------------------------------------- molecules
 @st.composite
 def molecules(draw, avoid=frozenset(), chem="any", max_blocks=2, closed=True, implicit_forms=True, max_atoms=5,
-              families=None, lists=None, plain_ok=True, arche=None, small=True, marker=None):
+              families=None, lists=None, plain_ok=True, arche=None, small=True, marker=None, force_prefix=None):
     """A molecule AST (elements as the parser must see them, `written` as typed)."""
     if plain_ok and draw(st.integers(0, 11)) == 0:
         t = draw(token([], max_atoms=8, chem=chem, avoid=avoid, min_heavy=2))
         return Mol([t], [t.text_ext], None, "plain", "plain")
     nblocks = draw(st.integers(1, max_blocks))
-    start_prefix = draw(st.booleans())
+    start_prefix = draw(st.booleans()) if force_prefix is None else force_prefix
     fam = draw(st.sampled_from(["<>", "<>", "$"]))
     elements, written, labels = [], [], []
     # terminal symbols between blocks
